@@ -62,11 +62,9 @@ Inductive errk := ERef | EType.
 (* values; [A] is the type of locations captured by closures *)
 Inductive val (A : Type) :=
 | VUndef | VBool (b : bool) | VInt (z : Z)
-| VFlt (z : Z)          (* integral number in goja's NON-canonical float representation; produced only by
-                           the transcription of goja's statement-position ++/-- (finding F7) *)
 | VNaN | VStr (t : N) | VErr (k : errk)
 | VClo (rho : list (name * A)) (pb : bid) (x : name) (body : stmt).
-Arguments VUndef {A}. Arguments VBool {A}. Arguments VInt {A}. Arguments VFlt {A}. Arguments VNaN {A}.
+Arguments VUndef {A}. Arguments VBool {A}. Arguments VInt {A}. Arguments VNaN {A}.
 Arguments VStr {A}. Arguments VErr {A}. Arguments VClo {A}.
 
 (* script-observable projection of a value *)
@@ -75,7 +73,6 @@ Inductive oval := OUndef | OBool (b : bool) | ONum (z : Z) (canon : bool) | ONaN
 Definition proj {A} (v : val A) : oval :=
   match v with
   | VUndef => OUndef | VBool b => OBool b | VInt z => ONum z true
-  | VFlt z => ONum z (Z.eqb z 0)     (* float 0 and int 0 hash and compare alike as Map keys *)
   | VNaN => ONaN | VStr t => OStr t | VErr k => OErr k | VClo _ _ _ _ => OFun
   end.
 
@@ -106,14 +103,14 @@ Definition of_const {A} (c : const) : val A :=
 Definition to_num {A} (v : val A) : option (option Z) :=
   match v with
   | VUndef => Some None | VBool b => Some (Some (if b then 1 else 0)%Z)
-  | VInt z => Some (Some z) | VFlt z => Some (Some z) | VNaN => Some None
+  | VInt z => Some (Some z) | VNaN => Some None
   | VStr t => Some (str_num t)
   | VErr _ => Some None | VClo _ _ _ _ => Some None     (* ToPrimitive gives a non-numeric string *)
   end.
 
 Definition truthy {A} (v : val A) : bool :=
   match v with
-  | VUndef => false | VBool b => b | VInt z => negb (Z.eqb z 0) | VFlt z => negb (Z.eqb z 0)
+  | VUndef => false | VBool b => b | VInt z => negb (Z.eqb z 0)
   | VNaN => false | VStr t => str_truthy t | VErr _ => true | VClo _ _ _ _ => true
   end.
 
@@ -147,9 +144,7 @@ Definition binop_eval {A} (o : binop) (a b : val A) : option (val A) :=
   | OSeq => match a, b with
             | VUndef, VUndef => Some (VBool true)
             | VBool x, VBool y => Some (VBool (Bool.eqb x y))
-            | (VInt x | VFlt x), (VInt y | VFlt y) => Some (VBool (Z.eqb x y))
-            | VNaN, (VInt _ | VFlt _ | VNaN) => Some (VBool false)
-            | (VInt _ | VFlt _), VNaN => Some (VBool false)
+            | VInt x, VInt y => Some (VBool (Z.eqb x y))
             | VStr x, VStr y => Some (VBool (N.eqb x y))
             | (VErr _ | VClo _ _ _ _), (VErr _ | VClo _ _ _ _) => None     (* object identity: not modelled *)
             | _, _ => Some (VBool false)
@@ -158,7 +153,7 @@ Definition binop_eval {A} (o : binop) (a b : val A) : option (val A) :=
 
 Definition typeof_tag {A} (v : val A) : N :=
   match v with
-  | VUndef => 0 | VInt _ | VFlt _ | VNaN => 1 | VBool _ => 2 | VStr _ => 3 | VClo _ _ _ _ => 4 | VErr _ => 5
+  | VUndef => 0 | VInt _ | VNaN => 1 | VBool _ => 2 | VStr _ => 3 | VClo _ _ _ _ => 4 | VErr _ => 5
   end%N.
 
 (* ---------------------------------------------------------------------------------------- *)
@@ -274,13 +269,10 @@ Definition Imem (al : bid -> bool) : memmodel := {|
 
 (* how an expression in a position whose value is discarded is evaluated:
    PSpec   : evaluate normally, drop the value (the definition);
-   PUnused : the compile-time "putOnStack = false" variant, computing only what is needed;
-   PGoja   : goja's transcription of that variant: ++/-- skip the ToNumber step (compiler_expr.go
-             compiledUnaryExpr / emitUnary with putOnStack=false, vm.go _inc/_dec) *)
-Inductive posmode := PSpec | PUnused | PGoja
-  | PGojaC.   (* PGoja + goja's order of checks for an assignment to a const binding: the compiler emits an
-                 unconditional TypeError for a store to a const (compiler.go emitVarSetter / throwConst),
-                 so the TDZ ReferenceError that the specification raises first is lost *)
+   PUnused : the compile-time "putOnStack = false" variant, computing only what is needed: goja's
+             compiledUnaryExpr / emitUnary with putOnStack=false; after fix 1c33988 (_inc/_dec through
+             floatToValue) it produces the same canonical number as the ToNumber-then-add path *)
+Inductive posmode := PSpec | PUnused.
 
 Section Interp.
 Variable MM : memmodel.
@@ -321,10 +313,7 @@ Definition setvar (c : mCtx MM) (rho : env) (x : name) (v : val A) : M unit :=
   | None => throwE ERef                      (* strict mode: assignment to an unresolvable reference *)
   | Some l => do cl <- readc c l;
               match cl with
-              | (k, None) => match pm, k with
-                             | PGojaC, true => throwE EType
-                             | _, _ => throwE ERef     (* TDZ *)
-                             end
+              | (_, None) => throwE ERef     (* TDZ comes first (goja: fix f6f18b6) *)
               | (true, Some _) => throwE EType
               | (false, Some _) => writec c l (false, Some v)
               end
@@ -381,18 +370,6 @@ Definition incdec_used (inc : bool) (old : val A) : M (val A * val A) :=   (* (T
       do o <- lift (mknum z);
       do nw <- lift (mknum (if inc then z + 1 else z - 1)%Z);
       ret (o, nw)
-  end.
-
-(* goja, result unused: no ToNumber; _inc/_dec on a non-valueInt give valueFloat(ToFloat() +- 1) *)
-Definition incdec_goja (inc : bool) (old : val A) : M (val A) :=
-  match old with
-  | VInt z => lift (mknum (if inc then z + 1 else z - 1)%Z)
-  | _ => match to_num old with
-         | None => oof
-         | Some None => ret VNaN
-         | Some (Some z) => let r := (if inc then z + 1 else z - 1)%Z in
-                            if (Z.leb (- lim) r && Z.leb r lim)%bool then ret (VFlt r) else oof
-         end
   end.
 
 (* the right operand of && / || inherits the discarded-result position only when the left operand is
@@ -458,10 +435,7 @@ Fixpoint eval (n : nat) (c : mCtx MM) (rho : env) (u : bool) (e : expr) {struct 
     | EIncDec pre inc x =>
         do old <- getvar c rho x;
         if uflag u then
-          match pm with
-          | PGoja | PGojaC => do nw <- incdec_goja inc old; do _ <- setvar c rho x nw; ret VUndef
-          | _ => do on <- incdec_used inc old; do _ <- setvar c rho x (snd on); ret VUndef
-          end
+          do on <- incdec_used inc old; do _ <- setvar c rho x (snd on); ret VUndef
         else
           do on <- incdec_used inc old; do _ <- setvar c rho x (snd on);
           ret (if pre then snd on else fst on)
@@ -781,10 +755,10 @@ with cf_stmt (s : stmt) : stmt :=
    on the operand stack, given the net effect [r] of emitExpr(right, putOnStack). *)
 Definition want (putOnStack : bool) : Z := if putOnStack then 1%Z else 0%Z.
 
-(* compiledLogicalAnd: if !v.ToBoolean() { emitLiteralValue(v) }   -- unconditionally pushes
-                       else { emitExpr(right, putOnStack) } *)
+(* compiledLogicalAnd (after fix 06cb082): if !v.ToBoolean() { if putOnStack { emitLiteralValue(v) } }
+                                           else { emitExpr(right, putOnStack) } *)
 Definition goja_and_const_left (putOnStack left_truthy : bool) : Z :=
-  if left_truthy then want putOnStack else 1%Z.
+  if left_truthy then want putOnStack else (if putOnStack then 1%Z else 0%Z).
 
 (* compiledLogicalOr: if v.ToBoolean() { if putOnStack { emitLiteralValue(v) } }
                       else { emitExpr(right, putOnStack) } *)
